@@ -429,7 +429,8 @@ struct E5 : Engine {
 						if(elapsed_lo >= (int64_t)(tval * 0.1 + 0.999)) { lo = hi = t + tval; cnt["renewed"]++; } else if(elapsed_hi < (int64_t)(tval * 0.1)) { lo = std::min(m.deadline_lo,t + (int64_t)tval); hi = std::max(m.deadline_hi,t + (int64_t)tval); cnt["renew_skippable"]++; maybe_not_written = true; } else { lo = std::min(m.deadline_lo,t + (int64_t)tval); hi = std::max(m.deadline_hi,t + (int64_t)tval); cnt["renew_boundary"]++; maybe_not_written = true; } } }
 				else { if(how == 0){ lo = m.deadline_lo; hi = m.deadline_hi; } else { lo = hi = t + tval; } cnt["sessions_updated"]++; }
 				jar.expire();
-				if(hi < t){ // the deadline passed while the request was being served (fixed expiration): the session has ended
+				if(hi < t || (lo < t && !jar.jar.count(PREFIX))){ // the deadline passed while the request was being served (fixed expiration): the session has ended. (lo < t <= hi: the model does not know which of the two
+					// deadlines the server chose when a renewal was optional; the browser's cookie, whose life time the server derived from the deadline it did choose, decides)
 					cnt["expired_during_request"]++; if(jar.jar.count(PREFIX) && jar.jar[PREFIX].expires < 0 && how != 2){ /* a browser-lifetime cookie for a dead session is harmless: the server-side deadline decides */ }
 					if(m.where == "server" && !m.sid.empty()) dead_sids.push_back(m.sid); m = MSession(); jar.jar.erase(PREFIX); continue; }
 				std::string sc = jar.jar.count(PREFIX) ? jar.jar[PREFIX].value : "";
